@@ -10,7 +10,10 @@ use crate::{
     compiler::{Card, CardBody, ForEach, Function, Module},
     procedures::ExecutionErrorPayload,
     value::Value,
-    vm::{runtime::cao_lang_object::CaoLangObjectBody, Vm},
+    vm::{
+        runtime::cao_lang_object::{CaoLangObjectBody, ObjectGcGuard},
+        Vm,
+    },
 };
 
 /// Given a table and a callback that returns a bool create a new table whith the items that return
@@ -161,6 +164,14 @@ pub fn sorted() -> Function {
         )))
 }
 
+/// Keeps the object behind `value`, if any, alive until the guard is dropped
+fn guard_value(value: Value) -> Option<ObjectGcGuard> {
+    match value {
+        Value::Object(o) => Some(ObjectGcGuard::new(o)),
+        _ => None,
+    }
+}
+
 pub fn native_minmax<T, const LESS: bool>(
     vm: &mut Vm<T>,
     iterable: Value,
@@ -177,6 +188,9 @@ pub fn native_minmax<T, const LESS: bool>(
                     vm.stack_push(*first.1)?;
                     vm.stack_push(*first.0)?;
                     let mut max_key = vm.run_function(key_fn)?;
+                    // the best key so far is only held here: guard it against the collections
+                    // that the next calls of the key function may start
+                    let mut _max_key_guard = guard_value(max_key);
                     let mut i = 0;
 
                     for (j, (k, value)) in t.iter().enumerate().skip(1) {
@@ -186,8 +200,11 @@ pub fn native_minmax<T, const LESS: bool>(
                         if if LESS { key < max_key } else { key > max_key } {
                             i = j;
                             max_key = key;
+                            _max_key_guard = None; // release the old one first
+                            _max_key_guard = guard_value(max_key);
                         }
                     }
+                    drop(_max_key_guard);
                     let k = t.nth_key(i);
                     let v = *t.get(&k).unwrap();
                     let mut result = vm.init_table()?;
@@ -220,16 +237,21 @@ pub fn native_sorted<T>(
                     // TODO:
                     // sort in place?
                     let mut result = Vec::with_capacity(t.len());
+                    // the keys are only held here: guard them against the collections that the
+                    // next calls of the key function may start
+                    let mut key_guards = Vec::new();
                     for (k, v) in t.iter() {
                         vm.stack_push(*v)?;
                         vm.stack_push(*k)?;
                         let key = vm.run_function(key_fn)?;
+                        key_guards.extend(guard_value(key));
                         result.push((key, k, v));
                     }
                     result.sort_by(|(a, _, _), (b, _, _)| {
                         a.partial_cmp(b).unwrap_or(std::cmp::Ordering::Equal)
                     });
 
+                    drop(key_guards);
                     let mut out = vm.init_table()?;
                     let t = out.as_table_mut().unwrap();
                     for (_, k, v) in result {
